@@ -3,6 +3,7 @@ package props
 import (
 	"encoding/json"
 	"fmt"
+	"sort"
 	"strings"
 
 	"github.com/freeconf/yang/node"
@@ -196,6 +197,70 @@ func (p c04) Run(c *core.Ctx, idx int) {
 				} else if d := dp.Diff(s, want, norm(jd.Tree), gcmp); d != "" {
 					c.Violate("json/"+gm.String()+"/"+diffClass(d)+typeClass(s, d), "WriteJSON from a %s source differs from the data present:\n%s\njson: %s\n%s", gm, d, head(js, 1500), wit())
 				}
+			}
+		}
+		// (1c) a list selection that is held across requests: a keyed request that finds an existing entry (an upsert of nothing but its key)
+		// and then a read through the same selection. Lists kept in Go slices have an order of their own, the order of the slice, and the read
+		// has to follow it whatever the node has looked up before.
+		var names []string
+		for name, ml := range t.Lists {
+			if g.Repr[ml.S] != dp.ReprMap && len(ml.Entries) >= 2 {
+				names = append(names, name)
+			}
+		}
+		sort.Strings(names)
+		for _, name := range names {
+			ml := t.Lists[name]
+			e := ml.Entries[c.Rand.Intn(len(ml.Entries))]
+			keyOnly := dp.NewDNode(ml.S)
+			for _, k := range ml.S.Keys {
+				if l := e.Leaves[k]; l != nil {
+					keyOnly.Leaves[k] = l.Clone()
+				}
+			}
+			doc := dp.EncodeJSONList(s, &dp.DList{S: ml.S, Entries: []*dp.DNode{keyOnly}}, dp.JOpts{})
+			c.Eval()
+			c.Count("held_list_selection_reads")
+			var js string
+			var uerr error
+			if c.Guard("held list selection: keyed upsert then read", func() {
+				var lsel *node.Selection
+				lsel, err = g.Browser().Root().Find(name)
+				if err != nil || lsel == nil {
+					err = fmt.Errorf("Find(%q): %v", name, err)
+					return
+				}
+				var src node.Node
+				if src, err = nodeutil.ReadJSON(doc); err != nil {
+					return
+				}
+				uerr = lsel.UpsertFrom(src)
+				js, err = nodeutil.WriteJSON(lsel)
+			}) {
+				continue
+			}
+			if err != nil || uerr != nil {
+				c.Violate("held-selection/"+gm.String()+"/error", "keyed upsert (%v) then WriteJSON (%v) through one held selection of list %s failed\nupserted: %s\nlists: %v\n%s", uerr, err, name, doc, g.Repr, wit())
+				continue
+			}
+			jd := dp.DecodeJSON(s, nil, js, dp.JOpts{})
+			if len(jd.Problems) > 0 {
+				c.Violate("held-selection/"+gm.String()+"/"+strings.SplitN(jd.Problems[0], ":", 2)[0], "WriteJSON through a held list selection: %s\njson: %s\n%s", jd.Problems[0], head(js, 1500), wit())
+				continue
+			}
+			got := jd.Tree.Lists[name]
+			var gk, wk []string
+			if got != nil {
+				for _, x := range got.Entries {
+					gk = append(gk, strings.Join(x.Key(), ","))
+				}
+			}
+			for _, x := range ml.Entries {
+				wk = append(wk, strings.Join(x.Key(), ","))
+			}
+			c.Shape("held-selection/%s/%s/entries=%d", gm, g.Repr[ml.S], min(len(wk), 6))
+			if strings.Join(gk, "\x01") != strings.Join(wk, "\x01") {
+				c.Violate("held-selection/"+gm.String()+"/order", "list %s (%s) read through a selection that had served a keyed upsert of the existing key %q: entries come as %q, the slice holds %q\njson: %s\n%s", name, g.Repr[ml.S], strings.Join(e.Key(), ","), gk, wk, head(js, 1500), wit())
 			}
 		}
 		if snap, e := g.Snapshot(); e != nil {
